@@ -9,7 +9,7 @@ namespace Heap
 
 theorem lookup_setF_same (l : List (Nat × Nat)) (f v : Nat) : (setF l f v).lookup f = some v := by
   induction l with
-  | nil => simp [setF, List.lookup]
+  | nil => simp [setF]
   | cons e r ih =>
     simp only [setF]
     split
@@ -102,7 +102,7 @@ theorem Wf.lt_of_getF {h : H} (w : Wf h) {o f v : Nat} (hg : getF h o f = some v
   apply Nat.lt_of_not_le
   intro hle
   have := w.fresh o hle
-  simp [getF, this, List.lookup] at hg
+  simp [getF, this] at hg
 
 theorem Wf.empty : Wf H.empty := ⟨fun _ _ => rfl, by intro o v h; simp [H.empty, Obj.ptrs] at h⟩
 
@@ -170,7 +170,7 @@ theorem Ext.refl (h : H) (w : Wf h) : Ext h h where
   newOwn := by
     intro o f v ho _ hg
     have := w.fresh o ho
-    simp [getF, this, List.lookup] at hg
+    simp [getF, this] at hg
   newItems := by
     intro o c ho hc
     have := w.fresh o ho
